@@ -49,6 +49,9 @@ type c18Cfg struct {
 	Rules       []c18Rule `json:"rules"`
 	// CtlResp: a SecAction, first rule of phase CtlRespPhase (1..3), switches response-body inspection for the
 	// transaction: "access=On" | "access=Off" (ctl:responseBodyAccess) | "force" (ctl:forceResponseBodyVariable=On).
+	// CtlEngineDO: the first rule of phase 1 switches the transaction to DetectionOnly (ctl:ruleEngine): nothing is
+	// blocked any more, whatever the rules and limits say, and the traffic passes intact
+	CtlEngineDO  bool   `json:"ctl_engine_detection_only,omitempty"`
 	CtlResp      string `json:"ctl_resp,omitempty"`
 	CtlRespPhase int    `json:"ctl_resp_phase,omitempty"`
 }
@@ -95,6 +98,9 @@ func (c *c18Cfg) Render() string {
 	fmt.Fprintf(&sb, "SecResponseBodyLimit %d\n", c.RespLimit)
 	fmt.Fprintf(&sb, "SecResponseBodyLimitAction %s\n", limitAction(c.RespReject))
 	sb.WriteString(`SecRule REQUEST_HEADERS:Content-Type "@beginsWith application/json" "id:9,phase:1,pass,nolog,ctl:requestBodyProcessor=JSON"` + "\n")
+	if c.CtlEngineDO {
+		sb.WriteString("SecAction \"id:6,phase:1,pass,nolog,ctl:ruleEngine=DetectionOnly\"\n")
+	}
 	switch c.CtlResp {
 	case "access=On", "access=Off":
 		fmt.Fprintf(&sb, "SecAction \"id:7,phase:%d,pass,nolog,ctl:responseBodyAccess=%s\"\n", c.CtlRespPhase, strings.TrimPrefix(c.CtlResp, "access="))
